@@ -74,7 +74,7 @@ LEVEL["C07"] = ("Decides the structural clause of C07 only: control messages and
                 "message per wake-up (RT-ONE-MSG); a route is inserted under the id returned for the receiver of the same control message and each "
                 "event's message is dispatched exactly once to the handler keyed by the event's id (RT-KEY); a closed event removes exactly that "
                 "handler (RT-REMOVE); forwarding closures send once (RT-FORWARD). Not decided: order and exactly-once as observed at run time "
-                "(inherits the receiver set, C06).")
+                "(inherits the receiver set, C06). Also the unix receiver-set rules the router depends on (SET-DRAIN, SET-CLOSE, SET-EINTR, SET-NONBLOCK): a member not drained starves its handler and never reports closure.")
 
 
 def check_C07(ctx):
@@ -92,6 +92,10 @@ def check_C07(ctx):
         router.rule_batch_order(ctx, cfg, F)
         ctx.rule("RT-ORDER").floor("select_consumers[%s]" % cfg, 2, cfg)
         rset.rule_set_id(ctx, cfg, F, "unix" if cfg == "K1" else "inprocess")
+    for cfg, F in ctx.configs(["K1"]):
+        # the router only sees what the set hands out: a member that is not drained starves its handler and never reports closure
+        rset.rule_set_unix(ctx, cfg, F)
+        ctx.rule("SET-DRAIN").floor("member_reads[%s]" % cfg, 1, cfg)
     ctx.assume("Result::map runs its closure iff the receiver is Ok; crossbeam and the receiver set deliver in order (C06)")
 
 
@@ -313,7 +317,7 @@ def check_C13(ctx):
 LEVEL["C02"] = ("Decides the routing-discipline clause of C02 only: follow-up fragments travel exclusively on a socketpair created for that one message, whose receiving end "
                 "rides in the first packet and is the only descriptor follow-ups are read from (FRAG-ROUTE); it is the last descriptor on both sides (DEDICATED-LAST); "
                 "header, first data and all rights leave in one sendmsg (ONE-PACKET); the in-process send is one queue push (ONE-QUEUE-PUSH); receivers are not Clone. "
-                "Not decided: kernel FIFO/packet atomicity (trusted), exactly-once and ordering as observed over schedules.")
+                "Not decided: kernel FIFO/packet atomicity (trusted), exactly-once and ordering as observed over schedules. Also, for delivery through a receiver set: each ready member is read until it would block (SET-DRAIN and the other unix set rules), since readiness is edge-triggered and a message left queued is never delivered.")
 
 
 def check_C02(ctx):
@@ -326,6 +330,10 @@ def check_C02(ctx):
         ctx.rule("DEDICATED-LAST").floor("dedicated_pushes[%s]" % cfg, 1, cfg)
         ctx.rule("DEDICATED-LAST").floor("pops[%s]" % cfg, 1, cfg)
         send.rule_one_packet(ctx, cfg, F)
+    for cfg, F in ctx.configs(["K1"]):
+        # delivery through a receiver set: edge-triggered readiness means a member not drained loses (never delivers) messages
+        rset.rule_set_unix(ctx, cfg, F)
+        ctx.rule("SET-DRAIN").floor("member_reads[%s]" % cfg, 1, cfg)
     for cfg, F in ctx.configs(["K3"]):
         send.rule_inproc_one_push(ctx, cfg, F)
     for cfg, F in ctx.configs(["K1", "K3"]):
@@ -396,7 +404,7 @@ def _add_by_value(ctx, cfg, F):
 LEVEL["C04"] = ("Decides the wire-format clauses of C04 only: the index written for an endpoint or region is its position in the side table and the table is read at exactly "
                 "the integer received (IDX-POS); serialising a receiver moves it out of the user's handle (RX-MOVE); the per-message descriptor is last on both sides "
                 "(DEDICATED-LAST) and both sides keep list order (SPLIT-ORDER); to_opaque/to move the same OS endpoint (REWRAP). Not decided: identity of the kernel object "
-                "behind a descriptor, backlog preservation, multi-hop histories.")
+                "behind a descriptor, backlog preservation, multi-hop histories. Also: the attachment lists handed to the platform send are the whole serialisation tables and the decode tables are exchanged whole (IDX-BASE), so absolute indices and lists share base 0 even for nested sends.")
 
 
 def check_C04(ctx):
@@ -404,6 +412,9 @@ def check_C04(ctx):
         ipcl.rule_idx_pos(ctx, cfg, F)
         ctx.rule("IDX-POS").floor("serialise_closures[%s]" % cfg, 3, cfg)
         ctx.rule("IDX-POS").floor("table_accesses[%s]" % cfg, 2, cfg)
+        ipcl.rule_idx_base(ctx, cfg, F)
+        ctx.rule("IDX-BASE").floor("send_lists[%s]" % cfg, 4, cfg)
+        ctx.rule("IDX-BASE").floor("decode_exchanges[%s]" % cfg, 2, cfg)
         ipcl.rule_rx_move(ctx, cfg, F)
         ctx.rule("RX-MOVE").floor("endpoint_pushes[%s]" % cfg, 2, cfg)
         ipcl.rule_rewrap(ctx, cfg, F)
@@ -421,7 +432,7 @@ def check_C04(ctx):
 LEVEL["C01"] = ("Decides bookkeeping clauses that are necessary for C01, not value equality: the length header is symmetric in type and size (HDR-SYM); fragments are contiguous "
                 "slices driven by one position variable and every first fragment announces len(data) (FRAG-CONTIG); reassembly writes at the current length (REASM-CONTIG, with "
                 "SETLEN-CAP of C18); the ipc layer and the in-process queue pass the whole buffer through unchanged (WHOLE-BUF). Not decided: equality of values, bincode "
-                "round-trip, that the receiver's buffers are large enough for every packet (fragment-size arithmetic over a runtime SO_SNDBUF), boundary lengths.")
+                "round-trip, that the receiver's buffers are large enough for every packet (fragment-size arithmetic over a runtime SO_SNDBUF), boundary lengths. Also: a timed wait that reports the socket ready is followed by the read on every path (TIMEOUT-ARM), so an accepted payload is not reported as disconnection.")
 
 
 def check_C01(ctx):
@@ -437,6 +448,8 @@ def check_C01(ctx):
         recv.rule_trunc_err(ctx, cfg, F)
         ipcl.rule_size_agree(ctx, cfg, F)
         ctx.rule("SIZE-AGREE").floor("single_packet_sites[%s]" % cfg, 1, cfg)
+        recv.rule_timeout_arm(ctx, cfg, F)
+        ctx.rule("TIMEOUT-ARM").floor("poll_sites[%s]" % cfg, 1, cfg)
     for cfg, F in ctx.configs(["K1", "K3"]):
         ipcl.rule_whole_buf(ctx, cfg, F)
         ctx.rule("WHOLE-BUF").floor("payload_sites[%s]" % cfg, 4, cfg)
@@ -468,6 +481,8 @@ def check_C05(ctx):
         ctx.rule("SHM-SENTINEL").floor("sentinel_pairs[%s]" % cfg, 1, cfg)
         ipcl.rule_idx_pos(ctx, cfg, F)
         ctx.rule("IDX-POS").floor("table_accesses[%s]" % cfg, 2, cfg)
+        ipcl.rule_idx_base(ctx, cfg, F)
+        ctx.rule("IDX-BASE").floor("send_lists[%s]" % cfg, 4, cfg)
     for cfg, F in ctx.configs(["K1", "K2"]):
         ipcl.rule_split_classify(ctx, cfg, F)
     for cfg, F in ctx.configs(["K3"]):
@@ -479,7 +494,7 @@ def check_C05(ctx):
 LEVEL["C08"] = ("Decides the 'leaves nothing behind' and naming clauses of C08 only: the server value owns its descriptor and temporary directory by RAII and accept consumes it by value "
                 "(OSS-OWN, NO-FORGET); no descriptor created for the rendezvous survives any exit of new/accept/connect (FD-PATH, FD-DROP); the name derives from a fresh TempDir / UUID "
                 "(OSS-NAME); the returned receiver is the accepted connection the first message was read from (OSS-SAMEFD). Not decided: that a client can connect before or after accept, "
-                "messages sent before accept or by an exited client, sun_path truncation for very long TMPDIR.")
+                "messages sent before accept or by an exited client, sun_path truncation for very long TMPDIR. Also: the rendezvous sockets are created close-on-exec (CLOEXEC), so a spawned client does not inherit the listening socket.")
 
 
 def check_C08(ctx):
@@ -493,6 +508,7 @@ def check_C08(ctx):
         ctx.rule("FD-PATH").floor("sources[%s]" % cfg, 9, cfg)
         fd.rule_fd_drop(ctx, cfg, F, model)
         fd.rule_no_forget(ctx, cfg, F)
+        fd.rule_cloexec(ctx, cfg, F, model)
     for cfg, F in ctx.configs(["K3"]):
         oss.rule_oss_own(ctx, cfg, F, "inprocess")
         oss.rule_oss_name(ctx, cfg, F, "inprocess")
